@@ -398,6 +398,12 @@ pub fn run_scenario(
             },
         };
         if let Some(p) = &proof {
+            let nb = p.to_bytes().len();
+            if nb != 1 + 32 * (5 + t + 2 * ((n * m).trailing_zeros() as usize)) {
+                out.prove = "badlen".into();
+                out.detail = format!("encoded length {} for bits {} aggregation {} degree {}", nb, n, m, t);
+                return (out, built);
+            }
             mbuilt.proof_bytes = Some(p.to_bytes());
         } else {
             out.prove = "err".into();
@@ -429,7 +435,8 @@ pub fn run_scenario(
                 return (out, built);
             },
             Ok(Err(_)) => {
-                out.verify = "err".into();
+                // an unaltered prover output that does not decode is a failed round trip (C15), not a rejection
+                out.verify = if altered { "err".into() } else { "roundtrip_fail".into() };
                 out.detail = "decode".into();
                 return (out, built);
             },
@@ -658,6 +665,12 @@ pub fn compare(expect: &Value, out: &Outcome) -> Option<String> {
     if out.verify == "recode" {
         return Some(out.detail.clone());
     }
+    if out.verify == "roundtrip_fail" {
+        return Some("ROUNDTRIP: from_bytes(to_bytes(proof)) failed for a proof the prover produced".to_string());
+    }
+    if out.prove == "badlen" {
+        return Some(format!("encoded length is not 1 + 32*(5 + d + 2*log2(bits*aggregation)): {}", out.detail));
+    }
     let ep = expect["prove"].as_str().unwrap();
     if ep != out.prove {
         return Some(format!("prover: specification predicts {}, library returned {}", ep, out.prove));
@@ -680,4 +693,191 @@ pub fn compare(expect: &Value, out: &Outcome) -> Option<String> {
         }
     }
     None
+}
+
+// ---------------------------------------------------------------------------------------------------
+// constructor / codec cases (C15, C16, C17): one TLC state = one call
+// ---------------------------------------------------------------------------------------------------
+fn okerr<T, E>(r: &Result<T, E>) -> &'static str {
+    if r.is_ok() {
+        "ok"
+    } else {
+        "err"
+    }
+}
+
+fn noncanonical(kind: u64, base: &[u8; 32]) -> [u8; 32] {
+    match kind % 4 {
+        0 => L_BYTES, // l itself
+        1 => {
+            let mut b = L_BYTES; // l + small
+            b[0] = b[0].wrapping_add(1 + (kind % 5) as u8);
+            b
+        },
+        2 => {
+            let mut b = [0xffu8; 32]; // 2^255 - 1
+            b[31] = 0x7f;
+            b
+        },
+        _ => {
+            let mut b = *base; // top bit set
+            b[31] |= 0x80;
+            b
+        },
+    }
+}
+
+/// Execute one case; returns (observed outcome, optional detail of a secondary mismatch)
+pub fn run_case(c: &Value, seed: u64, idx: u64) -> (String, Option<String>) {
+    let op = c["op"].as_str().unwrap();
+    let u = |k: &str| c[k].as_u64().unwrap() as usize;
+    let r = catch_unwind(AssertUnwindSafe(|| -> (String, Option<String>) {
+        match op {
+            "params" => {
+                let r = RangeParameters::<P>::init(u("n"), u("cap"), pedersen_std(1));
+                let mut extra = None;
+                if let Ok(p) = &r {
+                    if p.bit_length() != u("n") || p.max_aggregation_factor() != u("cap") || p.gi_base_iter().count() != u("n") * u("cap") ||
+                        p.hi_base_iter().count() != u("n") * u("cap")
+                    {
+                        extra = Some("getters disagree with the arguments".to_string());
+                    }
+                }
+                (okerr(&r).into(), extra)
+            },
+            "stmt" => {
+                let params = RangeParameters::<P>::init(4, u("cap"), pedersen_std(1)).unwrap();
+                let cs: Vec<P> = (0..u("m")).map(|j| alt_point("stmt", j as u64)).collect();
+                let proms: Vec<Option<u64>> = (0..u("np")).map(|j| if j % 2 == 0 { None } else { Some(j as u64) }).collect();
+                let sd = if c["seed"].as_bool().unwrap() { Some(Scalar::from(77u8)) } else { None };
+                let r = RangeStatement::init(params, cs.clone(), proms.clone(), sd);
+                let mut extra = None;
+                if let Ok(s) = &r {
+                    if s.commitments != cs || s.minimum_value_promises != proms || s.seed_nonce != sd || s.commitments_compressed.len() != cs.len() ||
+                        s.commitments.iter().zip(s.commitments_compressed.iter()).any(|(p, c)| p.compress().as_fixed_bytes() != c.as_fixed_bytes())
+                    {
+                        extra = Some("statement fields disagree with the arguments".to_string());
+                    }
+                }
+                (okerr(&r).into(), extra)
+            },
+            "wit" => {
+                let counts: Vec<usize> = c["counts"].as_array().unwrap().iter().map(|x| x.as_u64().unwrap() as usize).collect();
+                let ops: Vec<CommitmentOpening> = counts.iter().map(|n| CommitmentOpening::new(5, vec![Scalar::from(3u8); *n])).collect();
+                let r = RangeWitness::init(ops);
+                let mut extra = None;
+                if let Ok(w) = &r {
+                    if w.extension_degree as usize != counts[0] || w.openings.len() != counts.len() {
+                        extra = Some("witness degree/length disagree with the arguments".to_string());
+                    }
+                }
+                (okerr(&r).into(), extra)
+            },
+            "mask" => {
+                let bl: Vec<Scalar> = (0..u("len")).map(|i| Scalar::from(10 + i as u64)).collect();
+                let r = ExtendedMask::assign(ExtensionDegree::try_from(u("t")).unwrap(), bl.clone());
+                let mut extra = None;
+                if let Ok(mk) = &r {
+                    if mk.blindings().ok() != Some(bl) {
+                        extra = Some("mask blindings differ from the arguments".to_string());
+                    }
+                }
+                (okerr(&r).into(), extra)
+            },
+            "commit" => {
+                let pc = pedersen_std(u("t"));
+                let v = Scalar::from(12345u64);
+                let bl: Vec<Scalar> = (0..u("b")).map(|i| hash_scalar(&[b"commit", &(i as u64).to_le_bytes()])).collect();
+                let r = pc.commit(&v, &bl);
+                let mut extra = None;
+                if let Ok(p) = &r {
+                    let mut e = &pc.h_base * v;
+                    for (g, b) in pc.g_base_vec.iter().zip(bl.iter()) {
+                        e += g * *b;
+                    }
+                    if *p != e {
+                        extra = Some("commitment is not v*H + sum r_k*G_k".to_string());
+                    }
+                }
+                (okerr(&r).into(), extra)
+            },
+            "deg_u8" => {
+                let r = ExtensionDegree::try_from(u("v") as u8);
+                let extra = r.as_ref().ok().and_then(|d| if *d as usize != u("v") { Some("degree value adjusted".to_string()) } else { None });
+                (okerr(&r).into(), extra)
+            },
+            "deg_usize" => {
+                let r = ExtensionDegree::try_from(u("v"));
+                let extra = r.as_ref().ok().and_then(|d| if *d as usize != u("v") { Some("degree value adjusted".to_string()) } else { None });
+                (okerr(&r).into(), extra)
+            },
+            "deg_usize_named" => {
+                let v: usize = match c["name"].as_str().unwrap() {
+                    "u32max" => u32::MAX as usize,
+                    "u32max_plus1" => u32::MAX as usize + 1,
+                    "u32max_plus2" => u32::MAX as usize + 2,
+                    _ => usize::MAX,
+                };
+                // also the values that alias 1..6 modulo 2^8 and 2^32
+                let aliases = [v, 256 + 1, 65536 + 2, (1usize << 32) + 3, usize::MAX - 250];
+                let any_ok = aliases.iter().any(|x| ExtensionDegree::try_from(*x).is_ok());
+                ((if any_ok { "ok" } else { "err" }).into(), None)
+            },
+            "rlen" => {
+                let o = CommitmentOpening::new(1, vec![Scalar::ONE; u("b")]);
+                let r = o.r_len();
+                let extra = r.as_ref().ok().and_then(|n| if *n != u("b") { Some("r_len adjusted".to_string()) } else { None });
+                (okerr(&r).into(), extra)
+            },
+            "decode" => {
+                let len = u("len");
+                let fb = u("fb") as u8;
+                let nc = u("nc");
+                let mut rng = ChaCha12Rng::seed_from_u64(seed ^ idx.wrapping_mul(0x9e3779b97f4a7c15));
+                let mut bytes = Vec::with_capacity(len);
+                if len > 0 {
+                    bytes.push(fb);
+                }
+                let mut chunk = 0usize;
+                while bytes.len() + 32 <= len {
+                    chunk += 1;
+                    let mut w = [0u8; 64];
+                    rng.fill_bytes(&mut w);
+                    let s = Scalar::from_bytes_mod_order_wide(&w).to_bytes();
+                    bytes.extend_from_slice(&if chunk == nc { noncanonical(rng.next_u64(), &s) } else { s });
+                }
+                while bytes.len() < len {
+                    bytes.push((rng.next_u32() & 0xff) as u8);
+                }
+                let r = RangeProof::<P>::from_bytes(&bytes);
+                let mut extra = None;
+                // serde (bincode: u64 length prefix, then the same bytes) accepts and produces exactly the same strings
+                let mut framed = (bytes.len() as u64).to_le_bytes().to_vec();
+                framed.extend_from_slice(&bytes);
+                let rs: Result<RangeProof<P>, _> = bincode::deserialize(&framed);
+                if rs.is_ok() != r.is_ok() {
+                    extra = Some(format!("serde form {} a string from_bytes {}", okerr(&rs), okerr(&r)));
+                }
+                if let Ok(p) = &r {
+                    if p.to_bytes() != bytes {
+                        extra = Some("decoded proof re-encodes to different bytes".to_string());
+                    } else if bincode::serialize(p).ok() != Some(framed) {
+                        extra = Some("serde encoding differs from to_bytes".to_string());
+                    } else if p.extension_degree() as u8 != fb || RangeProof::<P>::extension_degree_from_proof_bytes(&bytes).map(|d| d as u8).ok() != Some(fb) {
+                        extra = Some("extension degree getter differs from the tag byte".to_string());
+                    } else if let Ok(q) = rs {
+                        if q != *p {
+                            extra = Some("serde-decoded proof differs from from_bytes".to_string());
+                        }
+                    }
+                }
+                (okerr(&r).into(), extra)
+            },
+            _ => ("harness".into(), Some(format!("unknown op {}", op))),
+        }
+    }));
+    match r {
+        Ok(x) => x,
+        Err(e) => ("panic".into(), Some(panic_msg(&e))),
+    }
 }
